@@ -313,3 +313,19 @@ pub fn parse_kinds(case: &Value) -> Value {
     }
     out
 }
+
+/// {"kinds":[..], "entry"} -> only the uncached run (may be exponential; the driver applies a timeout)
+pub fn parse_kinds_uncached(case: &Value) -> Value {
+    let kinds: Vec<TokenKind> = case["kinds"]
+        .as_array()
+        .unwrap()
+        .iter()
+        .map(|k| kind_by_name(k.as_str().unwrap()))
+        .collect();
+    let entry = entry_by_name(case["entry"].as_str().unwrap_or("program"));
+    let mut l = TokenList::new(loc("file:///m.oal"));
+    for (i, k) in kinds.iter().enumerate() {
+        l.push(Token::new(*k, TokenValue::None), i..i + 1);
+    }
+    json!({"outcome": "ok", "uncached": run_entry(l, entry, true)})
+}
